@@ -67,6 +67,12 @@ func berr(err error) string {
 // `size = declared+4, correlation id, body` and closes its end; the caller runs `ops` on the Batch and closes it.
 // Observed: every result, what Close returned, whether the Conn was closed, and how many body bytes were consumed.
 func bytesCase(ver int16, offset int64, declared int, body []byte, ops []string) string {
+	return bytesCaseSplit(ver, offset, declared, body, ops, 0)
+}
+
+// bytesCaseSplit: as bytesCase, the response frame reaching the client in two chunks cut after `split` bytes of the
+// frame (0 = one chunk): the bufio.Reader of the Conn holds only the first chunk until the reader asks for more.
+func bytesCaseSplit(ver int16, offset int64, declared int, body []byte, ops []string, split int) string {
 	cl, sv := net.Pipe()
 	cc := &countingConn{Conn: cl}
 	conn := kafka.NewConnWith(cc, kafka.ConnConfig{ClientID: "c06", Topic: "t", Partition: 0})
@@ -97,6 +103,14 @@ func bytesCase(ver int16, offset int64, declared int, body []byte, ops []string)
 			pre += 8
 			pmu.Unlock()
 			sv.SetWriteDeadline(time.Now().Add(2 * time.Second))
+			if split > 0 && split < len(out) {
+				if _, err := sv.Write(out[:split]); err != nil {
+					return
+				}
+				time.Sleep(300 * time.Microsecond)
+				sv.Write(out[split:])
+				return
+			}
 			sv.Write(out)
 			return
 		}
@@ -353,6 +367,46 @@ func consumedCases(r *rand.Rand, thorough bool) {
 		res := bytesCase(ver, offset, declared, body, ops)
 		f := strings.Split(res, ";")
 		fmt.Fprintf(out, "bbc %d %d %d %s %s\t%s;%s\n", ver, offset, declared, hexOr(body), opl, f[len(f)-2], f[len(f)-1])
+	}
+}
+
+// splitCases: v2 record batches (uncompressed, values of 70–300 bytes: record length and value length are multi-byte
+// varints) in a Fetch response that reaches the client in two chunks, cut at EVERY byte position of the frame; the
+// caller reads every message and closes the Batch; bytes of a following frame are already on the wire.  The varint
+// reader then meets the chunk boundary inside a number at some of the cuts (Model/VarIntRead.lean: the refill branch).
+// Emitted as `bbc` lines: a kept Conn has consumed exactly the declared frame, wherever the cut was.
+func splitCases(r *rand.Rand, thorough bool) {
+	shapes := [][]int{{70}, {130, 64}, {300, 5, 200}}
+	if thorough {
+		shapes = append(shapes, []int{64, 64, 64, 64}, []int{127, 128, 129}, []int{16384})
+	}
+	for si, lens := range shapes {
+		ver := []int16{2, 5, 10}[si%3]
+		offset := int64(3 + si)
+		vals := make([][]byte, len(lens))
+		for j, n := range lens {
+			vals[j] = gen1(r, n)
+		}
+		set := recordSetBytes(2, offset, false, vals)
+		if set == nil {
+			continue
+		}
+		body := append(fetchHead(ver, 0, offset+100, len(set)), set...)
+		declared := len(body)
+		body = append(body, gen1(r, 6)...) // what follows the frame on the wire
+		ops := make([]string, len(lens)+1)
+		for j := range ops {
+			ops[j] = "rm"
+		}
+		step := 1
+		if len(body) > 600 && !thorough {
+			step = 7
+		}
+		for k := 9; k < declared+8; k += step {
+			res := bytesCaseSplit(ver, offset, declared, body, ops, k)
+			f := strings.Split(res, ";")
+			fmt.Fprintf(out, "bbc %d %d %d %s %s,split=%d\t%s;%s\n", ver, offset, declared, hexOr(body), strings.Join(ops, ","), k, f[len(f)-2], f[len(f)-1])
+		}
 	}
 }
 
